@@ -7,9 +7,11 @@ from suites import clock as clock_suite
 TRUSTED_BASE = _base.STD_TRUSTED + [
     "Properties/C09.v: all theorems 'Closed under the global context' (no axioms); physics abstract",
     "modelled: AquaCropModel.run_model in both modes and _perform_timestep (Clock.v run_steps / run_till / perform); tied by suites/clock.py with random call partitions",
-    "not modelled: conversion of the output arrays to DataFrames, wall-clock fields, calls after termination",
+    "Properties/C09_api.v: Api.v models the wrapper itself (both run modes, initialize_model / process_outputs, the private flags, the DataFrame conversion, the getters, calls after termination); tied by suites/api.py on call sequences",
+    "not modelled: wall-clock fields (execution_time), the half-initialised object a raising _initialize leaves behind",
 ]
-ASSUMPTIONS = ["calls use initialize_model=False, process_outputs=False; num_steps >= 1 (smaller raises ValueError in the code)"]
+ASSUMPTIONS = ["the property's call pattern: one initialising call, then calls with initialize_model=False, process_outputs=False, num_steps >= 1 (smaller raises ValueError in the code: api_num_steps_*); "
+               "outside it the statement is refuted for core.py (api_partition_process_outputs_refuted, api_unfinished_refuted, api_reinitialise_refuted, api_num_steps_state_refuted: observations, DESIGN 15.7)"]
 RULE = ("correspondence as C07 (with partitions); monitor: implementation vs implementation, every composition of short windows and random partitions "
         "of long ones (every second one with another model built, initialised or run from the same input objects between the calls), bitwise tables + status after every call; distinct = distinct (configuration, partition list)")
 
@@ -17,6 +19,11 @@ RULE = ("correspondence as C07 (with partitions); monitor: implementation vs imp
 def suites(ctx):
     n = 140 if ctx["tier"] == "quick" else 1500
     out = [l1.run_suite("clock", clock_suite.gen, n, seed_names=("C09",), unit="clock")]
+    from suites import api as api_suite
+    ra = l1.run_suite("api", api_suite.gen, 500 if ctx["tier"] == "quick" else 8000, seed_names=("C09",), unit="api")
+    ra["ties"] = "Api.v: call sequences on the real AquaCropModel wrapper (valid, adversarial, finished-model, directed and malformed streams)"
+    ra["coverage"] = {k: dict(v) for k, v in api_suite.STATS.items()}
+    out.append(ra)
     from suites import runc
     r = runc.run_custom(36 if ctx["tier"] == "quick" else 400, "C09")      # every third run: the model advances by a random sequence of run_steps_c calls
     r["ties"] = "RunConcrete.v: whole concrete runs, by run_till_c and by random sequences of run_steps_c calls, against the implementation's tables"
